@@ -24,7 +24,7 @@ import (
 // was built with SkipCache, and a fresh handler H2 over the same root. Every
 // answer must be the CURRENT bytes (decoded) with the CURRENT Last-Modified, for
 // gzip / br / zstd, identity and a ranged request.
-func runUpdateCases(r *mon.Run, base int) {
+func runUpdateCases(r *mon.Run, base int) int {
 	n := r.N(240, 6000)
 	top := filepath.Join(os.TempDir(), fmt.Sprintf("c24-upd-%d", os.Getpid()))
 	os.MkdirAll(top, 0o755)
@@ -180,4 +180,5 @@ func runUpdateCases(r *mon.Run, base int) {
 			r.Require("update_decoded_"+c+"_after", n/2)
 		}
 	}
+	return n
 }
